@@ -341,6 +341,23 @@ func (g *Graph) Guards(target Point) []Guard {
 // go/cfg does not split short-circuit operators, so this is done here.
 var negCmp = map[token.Token]token.Token{token.EQL: token.NEQ, token.NEQ: token.EQL, token.LSS: token.GEQ, token.GEQ: token.LSS, token.GTR: token.LEQ, token.LEQ: token.GTR}
 
+// AtomsRaw is Atoms without the normalisation of false comparisons: the atoms keep
+// the expressions as written (needed where an atom names an input of the code).
+func AtomsRaw(e ast.Expr, pol bool) []Guard {
+	e = ast.Unparen(e)
+	switch x := e.(type) {
+	case *ast.UnaryExpr:
+		if x.Op == token.NOT {
+			return AtomsRaw(x.X, !pol)
+		}
+	case *ast.BinaryExpr:
+		if (x.Op == token.LAND && pol) || (x.Op == token.LOR && !pol) {
+			return append(AtomsRaw(x.X, pol), AtomsRaw(x.Y, pol)...)
+		}
+	}
+	return []Guard{{e, pol}}
+}
+
 func Atoms(e ast.Expr, pol bool) []Guard {
 	e = ast.Unparen(e)
 	switch x := e.(type) {
